@@ -235,6 +235,10 @@ func buildGens(r int, seed uint64) []namedGen {
 	dyn1 := fmt.Sprintf("[a-%c]{1,%d}x%dy", c('b', p+int(seed%7)), 2+r%5, seed%1000+uint64(r))
 	dyn2 := fmt.Sprintf("(?i)[%c-%c]+_%d", c('A', p), c('K', p), r)
 	dyn3 := fmt.Sprintf(`\d{%d}-[%c-%c]*(r%d|s%d)`, 1+r%3, c('m', p), c('p', p), r, seed%100)
+	// a large negated class that no earlier round used: expanding its ~1.1M runes takes long enough that
+	// concurrent first users really overlap inside the package-level table cache
+	bigNeg := fmt.Sprintf(`[^\x{%X}]{8}`, 0xE000+(r*131+int(seed%97))%6000)
+	add(wrap("StringMatching(bigneg)", rapid.StringMatching(bigNeg)))
 	shortWord := rapid.StringMatching(`[a-z]{1,6}`)
 	add(wrap("StringMatching(dyn1)", rapid.StringMatching(dyn1)))
 	add(wrap("StringMatching(dyn2)", rapid.StringMatching(dyn2)))
